@@ -305,17 +305,34 @@ def undirected(rnd, cfg):
     units = _units2(rnd, n_u, cfg.get("branchy", False))
     did = rnd.choice(["", "", "1", "3"])
     tags = {"arch:undirected", f"units:{n_u}"}
-    utexts = [tpl.format(_d("$", did, _w(rnd)), _d("$", did, _w(rnd))) for tpl, _ in units]
+    start_prefix = rnd.random() < 0.5
+    end_suffix = rnd.random() < 0.5
+    n_ends = rnd.choice([1, 2, 3]) if (not (start_prefix and end_suffix) or rnd.random() < 0.3) else 0
+    use_lists = rnd.random() < 0.2
+    n_desc = 2 * n_u + n_ends
+
+    def dollar_list():
+        # every '$' may meet every other '$': any non-negative list with weight on a repeat-unit descriptor is well-formed
+        lw = [float(rnd.choice([0, 0, 1, 2, 5])) for _ in range(2 * n_u)] + [0.0] * n_ends
+        if sum(lw) == 0:
+            lw[rnd.randrange(2 * n_u)] = 1.0
+        return "|" + " ".join(_wnum(rnd, x) for x in lw) + "|"
+
+    if use_lists:
+        tags.add("weights:list")
+        utexts = [tpl.format(_d("$", did, dollar_list()), _d("$", did, dollar_list())) for tpl, _ in units]
+    else:
+        utexts = [tpl.format(_d("$", did, _w(rnd)), _d("$", did, _w(rnd))) for tpl, _ in units]
     mean_unit = sum(unit_mass(t) for t, _ in units) / n_u
     dist, fam = make_dist(rnd, mean_unit, rnd.choice([1, 2, 4, 6]), cfg.get("family"), cfg.get("safe_dist", False))
     tags.add("family:" + fam)
-    start_prefix = rnd.random() < 0.5
-    end_suffix = rnd.random() < 0.5
     ends = []
-    if not (start_prefix and end_suffix) or rnd.random() < 0.3:
-        for tpl, _ in rnd.sample(ENDS, rnd.choice([1, 2, 3])):
-            ends.append(tpl.format(_d("$", did, _w(rnd, 0.3))))
+    for tpl, _ in rnd.sample(ENDS, n_ends):
+        ends.append(tpl.format(_d("$", did, _w(rnd, 0.3))))
     left = _d("$", did) if start_prefix else "[]"
+    if start_prefix and use_lists and rnd.random() < 0.6:
+        left = _d("$", did, dollar_list())
+        tags.add("left_terminal:list")
     right = _d("$", did) if end_suffix else "[]"
     body = "{" + left + _sep(rnd).join(utexts)
     if ends:
@@ -506,8 +523,18 @@ def multiblock(rnd, cfg):
                 utexts.append(t.format(_d("<", "", "|" + " ".join(_wnum(rnd, x) for x in hw) + "|"),
                                        _d(">", "", "|" + " ".join(_wnum(rnd, x) for x in tw) + "|")))
             left, right = "[>]", "[<]"
-            if rnd.random() < 0.3:
+            r_left = rnd.random()
+            if r_left < 0.3:
                 left = "[>|" + rnd.choice(WEIGHT_TEXTS) + "|]"
+            elif r_left < 0.65:
+                # the left terminal carries its own list (first pick of the block), different from every unit's list
+                lw = [0.0] * n_desc
+                for uj in range(n_u):
+                    lw[2 * uj] = float(rnd.choice([0, 1, 2, 5]))
+                if sum(lw) == 0:
+                    lw[0] = 1.0
+                left = "[>|" + " ".join(_wnum(rnd, x) for x in lw) + "|]"
+                tags.add("left_terminal:list")
         elif sym_mode == "dir":
             utexts = [t.format(_d("<", "", _w(rnd, 0.2)), _d(">", "", _w(rnd, 0.2))) for t, _ in units]
             left, right = "[>]", "[<]"
